@@ -27,7 +27,9 @@ ASSUMPTIONS = [
     "optimizer precision: 1e-7 (leastsq) / 2e-3 (nelder; its absolute xatol=1e-4 acts on E only, so the precision of the other parameters degrades for E ~ 30 Pa: 3.3e-4 observed) of the natural scale: depth for the contact point, force "
     "range for baseline and fit curve, relative for the modulus divided by the measured sensitivity s of the "
     "curve to the modulus (s = 1 for power-law models; layered model: s = max|F(1.01 E_S) - F(E_S)| / (0.01 range); "
-    "cases with s < 0.05 are 'weakly identifiable': modulus not asserted)",
+    "cases with s < 0.05 are 'weakly identifiable': modulus not asserted; the same where the resulting noise bound "
+    "on the modulus exceeds 50 % - the bound is a first-order error propagation and means 'not identifiable from this "
+    "curve' there, counted as modulus_not_identifiable_skipped)",
     "noise tolerance: C x sigma_rel / sqrt(n_contact points) with C = %r (calibrated on the pinned tree as >= 5x "
     "the largest normalised error seen in 2e5 trials) plus the optimizer precision" % (CNOISE,),
     "minimizers: leastsq and nelder (scale free); scipy least_squares is excluded: its absolute gtol=1e-8 stops "
@@ -191,6 +193,12 @@ def check_case(case, ctx):
            "E": (10 * tol + CNOISE["E"] * sig) / max(s, 1e-12), "fit": 10 * tol + CNOISE["E"] * sig}
     for key in ("cp", "bl", "E", "fit"):
         if key == "E" and s < 0.05:
+            continue
+        if key == "E" and lim["E"] > 0.5:
+            # the noise bound is a first-order error propagation: where it exceeds 50 % of the modulus (layered
+            # model with the substrate barely felt, strong noise, few points) the modulus is not identifiable from
+            # this curve and no tolerance "proportional to the noise level" exists
+            ctx.event("modulus_not_identifiable_skipped")
             continue
         if m[key] <= lim[key]:
             ctx.extra["max_" + key + "_over_limit"] = max(ctx.extra.get("max_" + key + "_over_limit", 0.0), m[key] / lim[key])
